@@ -536,6 +536,37 @@ fn run_iter(src: &str) -> String {
             let d = j(n.iter_write_variable_identifiers().map(hex).collect());
             let e = j(n.iter_function_identifiers().map(hex).collect());
             let nodes = j(n.iter().map(|x| op_text(x.operator())).collect());
+            // the same traversal through other Iterator methods, after consuming k items with next()
+            let mut others = vec![];
+            for k in 0..3usize {
+                let mut it = n.iter();
+                let mut seen = vec![];
+                for _ in 0..k {
+                    if let Some(x) = it.next() {
+                        seen.push(op_text(x.operator()));
+                    }
+                }
+                let mut rest = vec![];
+                it.for_each(|x| rest.push(op_text(x.operator())));
+                seen.extend(rest);
+                let mut it2 = n.iter();
+                for _ in 0..k {
+                    it2.next();
+                }
+                let cnt = it2.count();
+                let mut it3 = n.iter();
+                for _ in 0..k {
+                    it3.next();
+                }
+                let last = it3.last().map(|x| op_text(x.operator())).unwrap_or_else(|| "-".into());
+                let mut it4 = n.iter();
+                for _ in 0..k {
+                    it4.next();
+                }
+                let folded = it4.fold(String::new(), |acc, x| acc + &op_text(x.operator()) + ";");
+                others.push(format!("k{}:{}|{}|{}|{}", k, seen.join(","), cnt, last, folded));
+            }
+            let others = others.join(" ");
             let ops = j(n.iter_operators_mut().map(|o| op_text(o)).collect());
             let am = j(n.iter_identifiers_mut().map(|s| hex(s)).collect());
             let bm = j(n.iter_variable_identifiers_mut().map(|s| hex(s)).collect());
@@ -559,8 +590,8 @@ fn run_iter(src: &str) -> String {
                 s.insert(0, 'i');
             }
             format!(
-                "OK ids[{}] vars[{}] reads[{}] writes[{}] fns[{}] nodes[{}] ops[{}] idsm[{}] varsm[{}] readsm[{}] writesm[{}] fnsm[{}] renamed{}",
-                a, b, c, d, e, nodes, ops, am, bm, cm, dm, em, tree_text(&n)
+                "OK ids[{}] vars[{}] reads[{}] writes[{}] fns[{}] nodes[{}] ops[{}] idsm[{}] varsm[{}] readsm[{}] writesm[{}] fnsm[{}] via<{}> renamed{}",
+                a, b, c, d, e, nodes, ops, am, bm, cm, dm, em, others, tree_text(&n)
             )
         },
     }
